@@ -59,6 +59,36 @@ DyOK == (a <= 40 /\ b <= 40 /\ a > 0) =>
               /\ DyMag(d, 10) = (IF b >= 10 THEN Shl(A, b - 10) ELSE Shr(A, 10 - b))
               /\ DyExact(d, 10) = (b >= 10 \/ a % Pow2(10 - b) = 0)
 
+\* dyadic add / sub / cmp / mul against native arithmetic at a common scale 2^-5
+Dy2OK == (a <= 12 /\ b <= 12) =>
+    LET ea == (a % 11) - 5
+        eb == (b % 11) - 5
+        x == Dy(1, FromInt(a), eb)        \* a * 2^eb
+        y == Dy(-1, FromInt(b), ea)       \* -b * 2^ea
+        X == a * Pow2(eb + 5)
+        Y == -(b * Pow2(ea + 5))
+        xx == IF a = 0 THEN DyZero ELSE x
+        yy == IF b = 0 THEN DyZero ELSE y
+    IN  /\ SToInt(DyAt(DyAdd(xx, yy), -5)) = X + Y
+        /\ SToInt(DyAt(DySub(xx, yy), -5)) = X - Y
+        /\ DyCmp(xx, yy) = (IF X < Y THEN -1 ELSE IF X > Y THEN 1 ELSE 0)
+        /\ SToInt(DyAt(DyMulInt(xx, 3), -5)) = 3 * X
+        /\ SToInt(DyAt(DyMulInt(yy, -7), -5)) = -7 * Y
+        /\ SToInt(DyAt(DyMul(xx, yy), -10)) = X * Y
+        /\ DyWithin(xx, 2, DyAbs(yy)) = (4 * X <= -Y)
+
+\* rounding to 53 bits: a * 2^60 + b has 60 + bitlen(a) bits
+RoundOK == (a > 0 /\ a < 65536 /\ b < 65536) =>
+    LET x == Dy(1, Add(Shl(A, 60), Bw), -3)
+        r == DyRound53(x)
+        n == BitLen(x.m)
+    IN  /\ BitLen(r.m) <= 54
+        /\ (n <= 53 => r = x)
+        \* |r - x| <= half an ulp of the 53-bit format
+        /\ (n > 53 => DyLe(DyScale2(DyAbs(DySub(r, x)), 1), Dy(1, FromInt(1), x.e + (n - 53))))
+        \* ties go to even
+        /\ (n > 53 /\ Bit(x.m, n - 54) = 1 /\ LowBitsZero(x.m, n - 54) => Bit(Shr(r.m, 0), (r.e - x.e) - (n - 53)) = 0 \/ r.e # x.e + (n - 53))
+
 AllOK == RoundTrip /\ CmpOK /\ AddOK /\ AddSubOK /\ SubOK /\ MulSmallOK /\ MulOK /\ DivOK
-         /\ ShiftOK /\ BitOK /\ LimbsOK /\ SignedOK /\ DyOK
+         /\ ShiftOK /\ BitOK /\ LimbsOK /\ SignedOK /\ DyOK /\ Dy2OK /\ RoundOK
 =============================================================================
